@@ -108,5 +108,6 @@ def obligations(tier):
 MANIFEST_ENTRY = {
     'level_note': ('Relational check on the real record reader: the same symbolic record stream is read with chains=S and, after deleting '
                    'the ATOM/HETATM records of other chains, with no option; everything downstream of the reader sees only the emitted '
-                   'sequence, so equal sequences give equal results. K=3 records quick, K=4 thorough.'),
+                   'sequence, so equal sequences give equal results. K=3 records quick, K=4 thorough.'
+                   ' O3: whole pipeline on a two-chain micro-structure with upper-/lower-case, digit and blank chain identifiers (15 concrete selections).'),
 }
